@@ -69,3 +69,32 @@ Theorem C16_fold : forall k t v s' r, fold_into (sink0 (Some k)) t v = (s', r) -
   ((length evs <= k)%nat -> r = snd (fold_value t v) /\ s_log s' = evs).
 Proof. exact SF.Core.ExtendedProofs.C16_fold. Qed.
 Print Assumptions C16_fold.
+
+(* UBJSON parser, every input, chunking (Write ... Write, then end) and failure index k: the
+   failing run is determined by the unfailing one - exactly the first k+1 events, nothing after
+   the failing event, the visitor's error returned unchanged (or, when the visitor never got
+   that far, the same verdict and the same final parser).  Same for Parse. *)
+From SF Require Ubjson.Parse Ubjson.ParseVisitorProofs.
+Module UP := SF.Ubjson.Parse.
+Module UV := SF.Ubjson.ParseVisitorProofs.
+Theorem C16_ubj_parser : forall k chunks evs0 e0 p0,
+  UP.urun_chunks None chunks = Ok (evs0, e0, p0) ->
+  exists p, UP.urun_chunks (Some k) chunks =
+              Ok (firstn (S k) evs0, (if (length evs0 <=? k)%nat then e0 else UP.ueVisitor), p) /\
+            ((length evs0 <= k)%nat -> p = p0).
+Proof. exact UV.C16_ubj_parse_fail_spec. Qed.
+Print Assumptions C16_ubj_parser.
+
+Theorem C16_ubj_parser_parse : forall k b evs0 e0 p0,
+  UP.urun_parse None b = Ok (evs0, e0, p0) ->
+  exists p, UP.urun_parse (Some k) b =
+              Ok (firstn (S k) evs0, (if (length evs0 <=? k)%nat then e0 else UP.ueVisitor), p) /\
+            ((length evs0 <= k)%nat -> p = p0).
+Proof. exact UV.C16_ubj_run_parse_fail_spec. Qed.
+Print Assumptions C16_ubj_parser_parse.
+
+Theorem C16_ubj_parser_prompt : forall k chunks evs e p,
+  UP.urun_chunks (Some k) chunks = Ok (evs, e, p) ->
+  (length evs <= S k)%nat /\ (length evs = S k -> e = UP.ueVisitor).
+Proof. exact UV.C16_ubj_parse_prompt. Qed.
+Print Assumptions C16_ubj_parser_prompt.
